@@ -140,9 +140,9 @@ static void run_exh(uint64_t i)
 // ---------------------------------------------------------------- random larger patterns
 static std::string rnd_lit(Rng &r, bool first)
 {
-    static const char *W[] = {"a", "b", "ab", "ba", "osc", "Pvol", "x_y", "voice", "a-b", "Q", "part", "kit"};
+    static const char *W[] = {"a", "b", "ab", "ba", "osc", "Pvol", "x_y", "voice", "a-b", "Q", "part", "kit", "-6dB", "+6", "-12dB", "+0"};
     (void)first;
-    return W[r.below(12)];
+    return W[r.below(16)];
 }
 static Pattern gen_pattern(Rng &r)
 {
